@@ -64,7 +64,13 @@ func (g *gen) rawPool() []uint64 {
 // generator will hand out while it processes this very event.  IDs above next are therefore spaced nRaw+2
 // apart (an explicit ID bumps the generator just past itself; the event's own raw IDs then take at most nRaw
 // consecutive values), IDs below next are taken below the highest generated ID seen so far.
-func (g *gen) explicitID(v *wsView, above bool, nRaw int, slot *int) uint64 {
+func (g *gen) explicitID(v *wsView, above bool, nRaw int, slot *int, small bool) uint64 {
+	if small {
+		// IDs that travel in a JSON request body: below 2^53, and above the generator only when it is there itself
+		if v.maxID+1+uint64(nRaw)+200 >= 1<<53 {
+			above = false
+		}
+	}
 	for try := 0; try < 20; try++ {
 		var id uint64
 		if above {
@@ -82,10 +88,14 @@ func (g *gen) explicitID(v *wsView, above bool, nRaw int, slot *int) uint64 {
 				if g.r.Chance(1, 8) && base < 1<<40 {
 					base = 1<<40 + uint64(g.r.Intn(1000))
 				}
+			case 4:
+				if !small && g.r.Chance(1, 4) && base < 1<<53 {
+					base = 1<<53 + uint64(g.r.Intn(8)) // IDs that no longer fit a float64 exactly
+				}
 			}
 			id = base + uint64(*slot)*uint64(nRaw+2)
 			*slot++
-			if g.r.Chance(1, 12) {
+			if !small && g.r.Chance(1, 12) {
 				// the largest IDs validation lets an event carry (MaxRecordID = MaxInt64 and the one below): the generator
 				// then works above MaxRecordID, and a generator rebuilt from the log must follow it there
 				for _, top := range []uint64{1<<63 - 1, 1<<63 - 2} {
@@ -95,7 +105,7 @@ func (g *gen) explicitID(v *wsView, above bool, nRaw int, slot *int) uint64 {
 					}
 				}
 			}
-			if g.r.Chance(1, 40) && !v.used[^uint64(0)] {
+			if !small && g.r.Chance(1, 40) && !v.used[^uint64(0)] {
 				// the largest ID: UpdateOnSync must leave the generator alone (its successor does not fit)
 				v.used[^uint64(0)] = true
 				return ^uint64(0)
@@ -179,12 +189,21 @@ func (g *gen) genEvent(ws uint64, via string) (*eventSpec, []string) {
 	r := g.r
 	v := g.view(ws)
 	ev := &eventSpec{WS: ws, Via: via}
+	if via == "cmd" && r.Chance(1, 3) {
+		ev.APIv2 = true
+	}
 	var tags []string
 	pool := g.rawPool()
 	pi := 0
 	nextRaw := func() uint64 { x := pool[pi%len(pool)]; pi++; return x }
 
 	withArg := r.Chance(35, 100)
+	if via == "cmd" && r.Chance(1, 5) {
+		// a synced event through the real command processor (c.sys.Init, CUDs only): its explicit IDs reach the live
+		// generator through the wrapper the processor hands to PutPlog
+		ev.Sync = true
+		withArg = false
+	}
 	withCUD := !withArg || (via == "direct" && r.Chance(35, 100))
 	if via == "direct" && r.Chance(3, 10) {
 		ev.Sync = true
@@ -369,7 +388,7 @@ func (g *gen) genEvent(ws uint64, via string) (*eventSpec, []string) {
 		// explicit storage IDs instead of some raw ones
 		slot := 0
 		order := append(append([]uint64{}, argRaw...), cudRaw...) // the order in which the two passes meet the rows
-		if n := len(order); n >= 2 && r.Chance(3, 10) {
+		if n := len(order); n >= 2 && r.Chance(3, 10) && (via != "cmd" || (v.maxID+100 < 1<<53 && v.maxGen < 1<<53)) {
 			// tight: explicit IDs at / just above the generator's current value, on rows met after raw rows, before
 			// them, or both - the IDs the generator is about to hand out for the event's own raw rows
 			var at []int
@@ -407,7 +426,7 @@ func (g *gen) genEvent(ws uint64, via string) (*eventSpec, []string) {
 		for _, raw := range cudRaw {
 			if r.Chance(1, 2) {
 				above := r.Chance(6, 10)
-				id := g.explicitID(v, above, len(argRaw)+len(cudRaw), &slot)
+				id := g.explicitID(v, above, len(argRaw)+len(cudRaw), &slot, via == "cmd")
 				v.used[id] = true // reserved for this scenario even if the event is refused
 				replaceVal(ev, raw, id)
 				if id == 1<<63-1 || id == 1<<63-2 {
@@ -424,7 +443,7 @@ func (g *gen) genEvent(ws uint64, via string) (*eventSpec, []string) {
 		if withArg && r.Chance(1, 4) {
 			for _, raw := range argRaw {
 				if r.Chance(1, 2) {
-					id := g.explicitID(v, r.Chance(1, 2), len(argRaw)+len(cudRaw), &slot)
+					id := g.explicitID(v, r.Chance(1, 2), len(argRaw)+len(cudRaw), &slot, via == "cmd")
 					v.used[id] = true
 					replaceVal(ev, raw, id)
 					tags = append(tags, "explicit-arg-id")
@@ -595,6 +614,19 @@ func observe(v *wsView, ev *eventSpec) []string {
 	for _, p := range o.NewIDs {
 		if explicit[p.Storage] {
 			tags = append(tags, "F43:generated-id-equals-explicit-id-of-the-same-event")
+		}
+	}
+	if ev.APIv2 && o.Creates != nil {
+		stored := map[uint64]bool{}
+		for _, rows := range [][]rowSpec{o.Arg, o.Creates} {
+			for _, x := range rows {
+				stored[x.ID] = true
+			}
+		}
+		for _, p := range o.NewIDs {
+			if !stored[p.Storage] {
+				tags = append(tags, "F47:apiv2-reply-reports-an-id-that-was-not-stored")
+			}
 		}
 	}
 	argRaw := map[uint64]bool{}
